@@ -99,6 +99,16 @@ def make_class(idx, spec, rec):
         ns[pname] = Parameter(pname, IntRange(), default=0)
     if spec['shared']:
         ns['io'] = Attached()
+    if spec.get('cb_raises'):
+        # another subscriber of the poll interval (registered before the poller registers its own callback),
+        # which fails: exceptions of parameter callbacks are ignored and must not keep the change from the poller
+        def initModule(self):
+            Readable.initModule(self)
+
+            def failing(*args):
+                raise OSError('cannot save the poll interval')
+            self.addCallback('pollinterval', failing)
+        ns['initModule'] = initModule
     ns['__module__'] = __name__
     return type(f'GenMod{idx}', (Readable,), ns)
 
@@ -135,7 +145,7 @@ class C13(Check):
                    'scripted slow read; the staleness bound checked is interval-in-force + sweep (+ jumps inside '
                    'the gap); slow-poll bound is 3 x slowinterval + (number of polled parameters + 1) x sweep',
                    'pre-emption at lock operations, plus line events of frappy/modulebase.py in a third of the runs']
-    PROBES = ('c13.failing-poll', 'c13.interval-change', 'c13.fast-poll', 'c13.trigger', 'clock.jump',
+    PROBES = ('c13.failing-poll', 'c13.failing-interval-subscriber', 'c13.interval-change', 'c13.fast-poll', 'c13.trigger', 'clock.jump',
               'c13.comfail-at-startup', 'c13.back-to-back-requests', 'c13.unpolled-module')
 
     def gen_case(self, rng, tier):
@@ -153,7 +163,7 @@ class C13(Check):
                 'name': f'm{i}', 'interval': interval, 'slow': slow, 'shared': shared,
                 'polled': polled, 'nopoll': [f'n{j}' for j in range(rng.randrange(0, 2))],
                 'noread': ['q0'] if rng.random() < 0.3 else [],
-                'poll_reads_value': rng.random() < 0.7,
+                'poll_reads_value': rng.random() < 0.7, 'cb_raises': rng.random() < 0.25,
                 'scripts': {},
             }
             names = ['doPoll', 'read_value', 'read_status'] + ['read_' + p for p in polled + spec['nopoll']]
@@ -223,6 +233,8 @@ class C13(Check):
             if shared:
                 c['io'] = 'io'
             cfg[spec['name']] = c
+            if spec.get('cb_raises'):
+                sim.count('c13.failing-interval-subscriber')
         if shape.get('passive'):
             # a module which is not to be polled at all (enablePoll = False); it has a configured value to write, so
             # it is handed to the poll thread (of the shared io) for that one write
